@@ -1172,7 +1172,13 @@ identifier
 
 
 arguments
-    : /* empty */     { $$ = yr_strdup(""); }
+    : /* empty */
+      {
+        $$ = yr_strdup("");
+
+        if ($$ == NULL)
+          fail_with_error(ERROR_INSUFFICIENT_MEMORY);
+      }
     | arguments_list  { $$ = $1; }
 
 
